@@ -20,6 +20,7 @@ InitK ==
     wfi |-> {}, vpr |-> <<>>, tsi |-> 0, mcd |-> 0, lrr |-> FALSE,
     scroll |-> <<>>, hscroll |-> <<>>, lpk |-> 0,
     um |-> <<>>, us |-> <<>>, umm |-> 0,      \* unmodded_keys, unshifted_keys, unmodded_mods (bits)
+    ovrem |-> FALSE,        \* override_states.removed_oscs() is non-empty (left by the last override_keys call)
     sq |-> InitSq,          \* defseq sequence mode (SeqMode.tla); only touched when "seqtrie" \in DOMAIN Opts
     dyn |-> DmInit ]        \* dynamic macros (DynMacro.tla): record / replay state, stored macros
 
@@ -67,7 +68,10 @@ HandleInput(K, kind, code) ==
     [] kind = "p" -> [K0 EXCEPT !.L = EventL(EventL(@, Qd(TRUE, 0, code)), Qd(FALSE, 0, code))]
     \* src: mod.rs:730-733 KeyValue::Repeat -> handle_repeat (key_repeat.rs; KeyRepeat.tla): the layout is untouched
     [] kind = "r" -> IF TransOrderPanics(K0.L) THEN [K0 EXCEPT !.L = Panic(@, "heapless:layer_stack")]
-                     ELSE [K0 EXCEPT !.out = KrRepeatOut(K0.L, K0.um, K0.us, code)]
+                     \* handle_repeat_actual runs override_keys on the shared scratch override_states as well
+                     ELSE [K0 EXCEPT !.out = KrRepeatOut(K0.L, K0.um, K0.us, code),
+                                     !.ovrem = IF KrOverrides = <<>> THEN @
+                                               ELSE OvrOverrideKeysSt(KrOverrides, Keycodes(K0.L), OvrClean, "none").st.rem # <<>>]
     [] OTHER -> K0
 
 \* ----- handle_keystate_changes (1019-1791) ----------------------------------------
@@ -151,7 +155,7 @@ RevRelease(ce) == ce.k = "release" /\ \E i \in DOMAIN CuList(ce) : CuList(ce)[i]
 \* the scratch OverrideStates is cleaned by every call, so it is not part of the state.
 \* returns [L, cur]
 ApplyOverrides(L, cur) ==
-  IF "overrides" \notin DOMAIN Opts \/ Opts.overrides = <<>> THEN [L |-> L, cur |-> cur]
+  IF "overrides" \notin DOMAIN Opts \/ Opts.overrides = <<>> THEN [L |-> L, cur |-> cur, rem |-> FALSE]
   ELSE LET o == OvrOverrideKeysSt(Opts.overrides, cur, OvrClean, "none")
            gone == OvrRemovedNonMods(o.st)
            \* src: key_override.rs:262-296: flags |= CLEAR_ON_NEXT_ACTION | CLEAR_ON_NEXT_RELEASE
@@ -164,7 +168,7 @@ ApplyOverrides(L, cur) ==
            st2 == IF Opts.override_release_on_activation
                   THEN FilterSeq(st1, LAMBDA s : ~(s.t \in {"nk", "fk"} /\ s.a \in gone))
                   ELSE st1
-       IN [L |-> [L EXCEPT !.states = st2], cur |-> o.keys]
+       IN [L |-> [L EXCEPT !.states = st2], cur |-> o.keys, rem |-> o.st.rem # <<>>]
 
 HandleKeystateChanges(K) ==
   LET r == TickL(K.L)
@@ -187,7 +191,8 @@ HandleKeystateChanges(K) ==
       K2 == CASE ce.k = "press" -> CustomPressAll(K1, CuList(ce), "")
               [] ce.k = "release" -> CustomReleaseAll(K1, CuList(ce), "")
               [] OTHER -> K1
-  IN [K2 EXCEPT !.prev = cur]       \* prev_keys := cur_keys at the end of tick_states (855-856)
+  IN [K2 EXCEPT !.prev = cur,       \* prev_keys := cur_keys at the end of tick_states (855-856)
+                !.ovrem = ov.rem]
 
 \* ----- the rest of tick_states (846-863) ---------------------------------------------
 \* src: tick_idle_timeout 996-1011 (HashSet iteration order is not modelled: instances use
@@ -243,7 +248,12 @@ IsIdle(K) ==
      /\ K.mcd = 0
      \* src: mod.rs is_idle (fix 345be8d): prev_keys.iter().all(|pk| layout.keycodes().any(|kc| kc == *pk));
      \* Bug = "idle_ignores_prev" = the behaviour before the fix
-     /\ (Bug = "idle_ignores_prev" \/ \A i \in DOMAIN K.prev : Contains(Keycodes(L), K.prev[i]))
+     \* (Bug = "idle_ignores_owed": neither this conjunct nor the next one, the code before both fixes)
+     /\ (Bug \in {"idle_ignores_prev", "idle_ignores_owed"} \/ \A i \in DOMAIN K.prev : Contains(Keycodes(L), K.prev[i]))
+     \* src: mod.rs is_idle (fix d2e57b2): !(override_release_on_activation && override_states.removed_oscs().next().is_some()):
+     \* the tick after a roa activation still has to release the outputs and to press the still-held modifiers again;
+     \* Bug = "idle_ignores_roa_removed" = the behaviour before the fix
+     /\ (Bug \in {"idle_ignores_roa_removed", "idle_ignores_owed"} \/ ~(K.ovrem /\ Opts.override_release_on_activation))
      /\ K.vpr = <<>>
      /\ K.dyn.rep = <<>>                       \* dynamic_macro_replay_state.is_none()
      \* src: mod.rs is_idle (fix db302df): dynamic_macro_record_state.is_none(); Bug = "idle_ignores_rec"
